@@ -21,7 +21,7 @@ class C15(Prop):
 
     def cases(self, rng, tier):
         out = []
-        n = 250 if tier == 'quick' else 6000
+        n = 600 if tier == 'quick' else 6000
         for _ in range(n):
             P = rng.choice([50, 100, 200, 250, 500, 999, 1000, 1500, 3000])
             L = rng.choice([300, 700, 1000, 1234, 2000, 5000, 10000])
